@@ -41,11 +41,15 @@ CLAIMS = {
             "reader (python zipfile + own central/local header parser, unzip -t) comparing members before/after.",
             "Modelled, not verified: the zip crate (0.6.6) reader/writer as modelled in Zip.v (single disk, no zip64/AES records: such archives are outside the modelled class and only judged by the "
             "independent-reader oracle), CP437 table, DEFLATE data opaque.", "DESIGN.md section 5-C03"),
-    "C07": ("PARTIAL. Coq theorems: gzip, ar and pyc-zero-mtime find nothing to change in their own output (all inputs, all epochs); a zip/jar member is not later than the epoch after the clamp and a second pass over a written archive of settled members reports nothing; for ANY handler "
-            "whose byte-level function is idempotent, a fault-free run that replaced a single-link file is followed by a run that reports Noop, and a run that does not report Replaced leaves the file's "
-            "bytes, inode and metadata alone (any fault). The pyc rewriter run on its own output re-reads the tree it wrote and writes the same bytes (C07_pyc, from the round-trip theorem; domain as for C02). For javadoc a whole header line is proved idempotent for epochs in [0, 2^32): the stamp pass leaves no stamp text, the date written parses back as itself and is not later than the epoch (all 49711 days enumerated in the kernel), the rewritten tag stays the leftmost one and its new value creates no stamp (C07_javadoc_line); that a second pass splits the document into the same lines and closes the header window at the same line is not closed in Coq (zip holds under well-formedness side conditions): these are decided by re-running model and "
-            "implementation on every output of a modifying first run (all six handlers, generated inputs) and by CLI runs run;run;--check in the four serial/parallel combinations with inode/mtime snapshots.",
-            "Modelled, not verified: the parallel controller; the multi-link rewrite path is covered by the tree runs.", "DESIGN.md section 5-C07"),
+    "C07": ("Coq theorems, one per handler, that the byte-level function finds nothing to change in its own output: gzip, ar and pyc-zero-mtime for all inputs and epochs; the pyc rewriter on the domain of C02 "
+            "(it re-reads the tree it wrote and writes the same bytes: C07_pyc); javadoc for whole documents and epochs in [0, 2^32) or none (C07_javadoc: the output splits into the lines that were written, "
+            "every header line is left alone - no stamp text remains, the date written parses back as itself and is not later than the epoch (all 49711 days enumerated in the kernel), the rewritten tag stays the "
+            "leftmost one - and the header window does not close later than the first time); zip/jar under the side conditions of C03 (members of the output are not later than the epoch and a second pass over a written "
+            "archive of settled members reports nothing; the side conditions are the executable domain predicate measured on every sampled archive). For ANY handler whose byte-level function is idempotent, a "
+            "fault-free run that replaced a single-link file is followed by a run that reports Noop, and a run that does not report Replaced leaves the file's bytes, inode and metadata alone (any fault). "
+            "Tied to the code by re-running model and implementation on every output of a modifying first run (all six handlers, generated inputs) and by CLI runs run;run;--check in the serial/parallel "
+            "combinations (leftover temporary files in the tree, a discarded negative epoch) with inode/mtime snapshots.",
+            "Modelled, not verified: the parallel controller; the multi-link rewrite path is covered by the tree runs; zip idempotence holds under the stated side conditions only.", "DESIGN.md section 5-C07"),
     "C08": ("Coq theorems for every byte string: none of the modelled handlers (gzip, ar, javadoc, pyc incl. the recursive marshal reader with its depth limit, pyc-zero-mtime) can reach a panic; "
             "a handler run ends without a result only if the handler's own code panics, hence the walk processes and counts every entry whatever the files contain; a file not reported Replaced is "
             "byte- and metadata-identical afterwards (any handler, any single fault). The polynomial-cost statement is refuted on the model with computed instances (reference DAG, recorded finding F9). "
